@@ -7,6 +7,8 @@
 
 #![allow(dead_code)]
 
+#[path = "../../../sim/src/bigtext.rs"]
+mod bigtext;
 #[path = "../../../sim/src/c15.rs"]
 mod c15;
 #[path = "../../../sim/src/harness.rs"]
@@ -31,7 +33,7 @@ fn main() {
     let mut steps = 0u64;
     for run in 0..runs {
         let rs = harness::run_seed_for(&layer, seed, config, run);
-        let case = layer.generate(rs, config, 1);
+        let case = layer.generate(rs, config, 0);
         let out = layer.execute(&case, &mut stats);
         steps += out.steps;
         if let Some(v) = out.violation {
